@@ -50,8 +50,8 @@ class ContractMixin:
                 if isinstance(t, TList) and v.const is not None and isinstance(v.const.v, tuple):
                     v = mk_const(list(v.const.v))  # a literal tuple passed where a sequence is expected
                 try:
-                    if isinstance(v.t, TOpt) and not isinstance(t, TOpt):
-                        bound[n] = self.coerce_to(v, t, st, node)  # None must be excluded: obligation
+                    if (isinstance(v.t, TOpt) and not isinstance(t, TOpt)) or isinstance(v.t, sym.TDict):
+                        bound[n] = self.coerce_to(v, t, st, node)  # None must be excluded: obligation (a dict: boxed if opaque)
                     else:
                         bound[n] = sym.coerce(self.reify(v), t)
                 except (TypeError, EngineError) as err:
